@@ -167,12 +167,27 @@ CHECKS = {
             "by corpus values, not decided by TLC; names inside RDATA are covered through message equality, not through the layout "
             "oracle.",
             "DESIGN.md section 4 C02", "wire"),
+    "C16": ("model_checking",
+            "TLA+ machines (UdpMatch, Mux) with requirement invariants checked exhaustively by TLC; TLC-enumerated arrival "
+            "schedules / interleavings with the outcome sets the property permits replayed into the real UdpClientStream "
+            "(scripted RuntimeProvider) and DnsMultiplexer (scripted DnsClientStream, polled exactly when its task would be "
+            "woken, paused clock); recorded traces validated by TLA+ monitors judging on concrete source / ID / question bytes",
+            "Every schedule of <= 4 (thorough <= 5) datagrams over the forgery catalogue (wrong source ip/port, id, qname, qname "
+            "case, qtype, extra question, garbage), genuine reply at every position or absent, case randomisation on/off, plus "
+            "two-socket retransmission schedules; every interleaving of <= 7 (<= 8) steps over 2-4 multiplexed requests "
+            "(deliver in-flight / unknown / duplicate id, garbage, cancel, timeout, close); all replayed through the real code; "
+            "long random schedules, 400-in-flight and burst/flood scenarios judged by Trace_UdpMatch / Trace_Mux.",
+            "Scripted sockets/streams and hand-written wire codec in drive_c16; skip-vs-fail for non-matching datagrams and "
+            "refusal at the in-flight cap are left open by the property and accepted either way; ID/port/case entropy not judged.",
+            "DESIGN.md section 4 C16", "mux"),
 }
 
 NOT_YET = {
 }
 
 ENGINES = [
+    {"name": "mux", "path": "spec/Mux.tla", "serves_properties": ["C16"],
+     "kind_free_text": "TLA+ spec (UdpMatchOps, UdpMatch, Mux, MC_/Gen_/Trace_UdpMatch, Gen_UdpRetx, MC_/Gen_/Trace_Mux) + harness/src/bin/drive_c16/"},
     {"name": "wire", "path": "spec/WireName.tla", "serves_properties": ["C01", "C02"],
      "kind_free_text": "TLA+ spec (WireNameOps, WireName, MC_WireName, Gen_WireName, Trace_Wire, Trace_RoundTrip) + harness/src/bin/drive_wire.rs"},
     {"name": "update", "path": "spec/Update.tla", "serves_properties": ["C12", "C14"],
